@@ -241,15 +241,21 @@ def one_curve(rec, rng, cid, tsets, xproc):
             ts_key = "mem"
         else:
             ts_val, ts_key = tsets[cfg["ts"]]
-        pub = {k: v for k, v in cfg.items() if k != "_mem"}
+        # the caller may list the feature names in any order
+        names_passed = names
+        if names is not None and rng.random() < .5:
+            names_passed = [names[i] for i in rng.permutation(len(names))]
+            rec.event("feature names passed in shuffled order")
+        pub = {k: v for k, v in cfg.items() if not k.startswith("_")}
+        pub["names_as_passed"] = names_passed
         hist.append(pub)
         case = {"id": cid, "curve": desc, "state": state, "configs": hist}
         cached_before = copy.copy(idnt._rating)
         with RaterTap() as tap:
             try:
                 rt = idnt.rate_quality(regressor=cfg["regressor"],
-                                       training_set=ts_val, names=names,
-                                       lda=cfg["lda"])
+                                       training_set=ts_val,
+                                       names=names_passed, lda=cfg["lda"])
             except BaseException as e:  # noqa
                 rec.evaluated(dg=(desc, state, hist))
                 mech = "in-memory-training-set-copy" \
@@ -325,7 +331,8 @@ def one_curve(rec, rng, cid, tsets, xproc):
             same_key = (cached_before is not None and prev is not None and
                         cached_before[0] == curhash and
                         prev["regressor"] == cfg["regressor"] and same_ts and
-                        prev["names"] == names and prev["lda"] == cfg["lda"])
+                        prev.get("_names_passed") == names_passed and
+                        prev["lda"] == cfg["lda"])
             if same_key:
                 rec.event("repeated configuration")
                 rec.check(built == 0, "cache/rebuilt-although-unchanged",
@@ -344,16 +351,17 @@ def one_curve(rec, rng, cid, tsets, xproc):
         # ---- repetition and fresh object in the same state
         if rng.random() < .3 and not isnone:
             again = idnt.rate_quality(regressor=cfg["regressor"],
-                                      training_set=ts_val, names=names,
-                                      lda=cfg["lda"])
+                                      training_set=ts_val,
+                                      names=names_passed, lda=cfg["lda"])
             twin = build().rate_quality(regressor=cfg["regressor"],
-                                        training_set=ts_val, names=names,
-                                        lda=cfg["lda"])
+                                        training_set=ts_val,
+                                        names=names_passed, lda=cfg["lda"])
             rec.event("repetition / fresh-object comparisons")
             rec.check((again == rt and twin == rt) or np.isnan(rt),
                       "not-deterministic",
                       "rating %r, repeated %r, fresh object in the same state "
                       "%r" % (rt, again, twin), case)
+        cfg["_names_passed"] = names_passed
         prev = cfg if not isnone else prev
     if xproc is not None and isinstance(desc, dict) and len(xproc) < 12 \
             and state in ("fitted", "refitted", "retract-fitted"):
